@@ -502,11 +502,13 @@ func parseSearchQuery(query, countryCode string, withLogin bool) ([][]string, []
 	ctx := context{preOp: AND}
 	var out []token
 	var prev int
+	// The previous rune closed a quoted string.
+	var closed bool
 	query = strings.TrimSpace(query)
 	// Split query into tokens.
 	for i, w, pos := 0, 0, 0; prev != END; i, pos = i+w, pos+1 {
 		//
-		var emit bool
+		var emit, opening, closing bool
 
 		// Lexer: get next rune.
 		var r rune
@@ -529,17 +531,22 @@ func parseSearchQuery(query, countryCode string, withLogin bool) ([][]string, []
 			if ctx.quo {
 				// End of the quoted string. Close the quote.
 				ctx.quo = false
+				closing = true
 			} else {
 				if prev == ORD {
 					// Reject strings like a"b
 					return nil, nil, fmt.Errorf("missing operator at or near %d", pos)
 				}
-				// Start of the quoted string. Open the quote.
-				ctx.quo = true
-				ctx.unquote = true
+				// Start of the quoted string. The quote is opened after
+				// the preceding token, if any, is emitted.
+				opening = true
 			}
 			curr = ORD
+		} else if curr == ORD && closed {
+			// Reject strings like "a"b
+			return nil, nil, fmt.Errorf("missing operator at or near %d", pos)
 		}
+		closed = closing
 
 		// Parser: process the current lexem in context.
 		switch curr {
@@ -609,6 +616,12 @@ func parseSearchQuery(query, countryCode string, withLogin bool) ([][]string, []
 			ctx.preOp = ctx.postOp
 			ctx.postOp = NONE
 			ctx.unquote = false
+		}
+
+		if opening {
+			// Open the quote: the new token is a quoted string.
+			ctx.quo = true
+			ctx.unquote = true
 		}
 
 		prev = curr
